@@ -143,7 +143,7 @@ func (fr *frame) exec(in ssa.Instruction, st *State, reach string) {
 	case *ssa.Alloc:
 		elemT := ptrElem(i.Type())
 		if at, ok := elemT.Underlying().(*types.Array); ok {
-			cell := &ArrCell{ElemT: at.Elem()}
+			cell := &ArrCell{ElemT: at.Elem(), Fresh: true}
 			for k := int64(0); k < at.Len(); k++ {
 				cell.Elems = append(cell.Elems, e.zero(e.sortOf(at.Elem()), at.Elem()))
 			}
@@ -164,6 +164,10 @@ func (fr *frame) exec(in ssa.Instruction, st *State, reach string) {
 				fc.heapSet(st, n, Term{store(a.S, r.S, e.zero(si.sorts[k], f.Type()).S), a.Sort})
 			}
 			_ = sn
+			if isNamed(elemT, "bytes", "Buffer") {
+				a := bufArr(fc, st)
+				fc.heapSet(st, "BUF", Term{store(a.S, r.S, "\"\""), a.Sort})
+			}
 			// mutex fields start unlocked
 			if stt, ok := elemT.Underlying().(*types.Struct); ok {
 				for k := 0; k < stt.NumFields(); k++ {
@@ -518,9 +522,20 @@ func (fr *frame) execSlice(i *ssa.Slice, st *State, reach string) {
 				fr.vals[i] = Term{"\"\"", SString}
 				return
 			}
+			if isByte(cell.ElemT) && cell.Fresh {
+				// make([]byte, n) with constant n: n zero bytes
+				fr.vals[i] = Term{smtString(strings.Repeat("\x00", len(cell.Elems))), SString}
+				return
+			}
 			// varargs / composite literal: the cell is filled before it is sliced
 			fr.vals[i] = &VarArgSlice{Elems: cell.Elems}
 			return
+		}
+		if isByte(cell.ElemT) && cell.Fresh && i.Low == nil {
+			if k, ok := i.High.(*ssa.Const); ok && int(k.Int64()) <= len(cell.Elems) {
+				fr.vals[i] = Term{smtString(strings.Repeat("\x00", int(k.Int64()))), SString}
+				return
+			}
 		}
 		fc.unsupported("partial slice of local array in %s", fr.fn.Name())
 		return
@@ -651,6 +666,7 @@ func (fr *frame) execStore(i *ssa.Store, st *State, reach string) {
 		fc.heapSet(st, pt.Arr, Term{store(a.S, pt.Base.S, v.S), a.Sort})
 	case *PtrArrElem:
 		pt.Cell.Elems[pt.Idx] = fr.val(i.Val)
+		pt.Cell.Fresh = false
 	case *PtrSliceElem:
 		fc.unsupported("in-place store to a slice element in %s (slices are values in this model)", fr.fn.Name())
 	case Term:
